@@ -258,6 +258,10 @@ contains
 #ifndef SIMC
     case ("str_val")
        call sim_phase(1); s = str_val(int(a, C_INT)); call sim_phase(0); call res_str(s); deallocate(s)
+    case ("str_val2")
+       call sim_phase(1); s = str_val2(int(a, C_INT)); call sim_phase(0); call res_str(s); deallocate(s)
+    case ("str_val3")
+       call sim_phase(1); s = str_val3(int(a, C_INT)); call sim_phase(0); call res_str(s); deallocate(s)
 #endif
 #ifndef SIMC
     case ("str_owned")
